@@ -291,6 +291,14 @@ class _StaleAfterEofTransport(MemStreamTransport):
 
 
 async def _async_session(case: dict) -> dict:
+    if case.get("stale_cancel"):
+        _t = asyncio.current_task()
+        assert _t is not None
+        _t.cancel()
+        try:
+            await asyncio.sleep(0)
+        except asyncio.CancelledError:
+            pass  # (no uncancel(): the count stays at 1 for the rest of the session)
     entry = zoo.build(case["spec"])
     judge = _Judge(case, entry)
     loop = asyncio.get_running_loop()
@@ -478,6 +486,9 @@ def st_adapter_case(draw: st.DrawFn, tier: str) -> dict:
     case["max_recv"] = draw(st.sampled_from([None, None, 1, 5]))
     # bursts larger than max_recv_size waiting in the protocol's buffer exercise the partial-read path of receive_data()
     case["gaps"] = [draw(st.sampled_from([0.0, 0.0, 0.0, 0.5])) for _ in case["gaps"]]
+    # the calling task runs with task.cancelling() == 1 (clean-up code of a cancelled task; on CPython 3.11/3.12 also any
+    # task after a handled task-group failure, which leaks one cancel request into its parent)
+    case["stale_cancel"] = draw(st.integers(0, 3)) == 0
     return case
 
 
